@@ -6,7 +6,9 @@
              succ: ','-separated node ids or '-'
      d0    : ','-separated node ids initially in the destination, or '-'
      trace : ','-separated event tokens or '-':
-             XB.n  XE.n.b  SB.n SE.n SC.n  PB.n.ref PE.n.ref.(k|x)  CB.kind.n  CF.kind.n  TB.n TE.n  RT.b
+             XB.n  XE.n.b  SB.n SE.n SC.n  PB.n.ref PE.n.ref.(k|x)  CB.kind.n  CF.kind.n  TB.n TE.n
+             MB.n  ME.n.(m|s|c)  RT.b
+     mode  : g|t|r, followed by m when the destination is a Mounter and MountFrom is set
              kind: pre post skip mounted mountfrom
    output: <id> ACC ret=<1|0|-> tag=<n|-> dst=<ids> cr=<ids|-> ms=<max src reads in flight> md=<max dst ops in flight>
         or <id> REJ <index> <token>  (first event the transition system refuses) *)
@@ -33,6 +35,10 @@ let event_of tok =
   | ["PE"; n; r; "x"] -> PuE (nn n, bb r, PExists)
   | ["CB"; k; n] -> Cb (kind_of k, nn n)
   | ["CF"; k; n] -> CbFail (kind_of k, nn n)
+  | ["MB"; n] -> MtB (nn n)
+  | ["ME"; n; "m"] -> MtE (nn n, MMounted)
+  | ["ME"; n; "s"] -> MtE (nn n, MSkipped)
+  | ["ME"; n; "c"] -> MtE (nn n, MCopied)
   | ["TB"; n] -> TagB (nn n)
   | ["TE"; n] -> TagE (nn n)
   | ["RT"; b] -> Ret (bb b)
@@ -68,9 +74,10 @@ let () =
                   g_foreign = (fun x -> get foreign false x);
                   g_ismf = (fun x -> get ismf false x);
                   g_dkey = (fun x -> let i = int_of_nat x in nat_of_int (if i < n then dkey.(i) else 1000000 + i)) } in
-        let mode = match smode with "g" -> MGraph | "t" -> MTagger | "r" -> MRefPush | _ -> failwith "mode" in
+        let mount = String.length smode = 2 && smode.[1] = 'm' in
+        let mode = match String.sub smode 0 1 with "g" -> MGraph | "t" -> MTagger | "r" -> MRefPush | _ -> failwith "mode" in
         let root = int_of_string sroot in
-        let c = { c_K = eff_K_gen (z_of_int (int_of_string sk)); c_mode = mode; c_root = nat_of_int root;
+        let c = { c_K = eff_K_gen (z_of_int (int_of_string sk)); c_mode = mode; c_root = nat_of_int root; c_mount = mount;
                   c_cached0 = List.map nat_of_int (ints sc0) } in
         let d0 = List.map nat_of_int (ints sd0) in
         let toks = if strace = "-" then [] else String.split_on_char ',' strace in
